@@ -68,6 +68,10 @@ CLAIMED["C15"] = ("14 theorems on the farm-staking-proxy model (callee answers a
     "for every history the proxy holds exactly the LP-farm and staking-farm tokens its outstanding dual-yield tokens record, all fungible balances 0; partial redemption = floor of the proportional share, sum of parts never exceeds the whole; "
     "unstake output order and unbond amount; registered staking value is the staking side of the safe-price (TWAP) answer and the only price query. Tied to the real pair + farm-with-locked-rewards + farm-staking + proxy by differential replay.",
     "14 C15", "Coq inductive invariant + characterisation theorems relative to stated callee laws + correspondence")
+CLAIMED["C19"] = ("24 theorems: the access table (587 rows = every exported endpoint of the 16 contracts in Gen/Endpoints.v, regenerated from the source each run, plus on-behalf variants; 11,926 cells) proved exhaustively by vm_compute + forallb_forall: allowed => caller holds the demanded role / is a configured counterparty / authorised agent; "
+    "fund-moving rows disallowed when inactive or paused (pair bootstrap exception), partial-active = liquidity only; inventory covered, #[only_owner] attributes agree; for all inputs: require_any_of rule, no escalation and powerless callers over every permissions/hub history, on-behalf rule = hub view, revocation/blacklist stick, rewards to the original owner; "
+    "on Model.Pair / Model.Farm for all states and arguments: inactive => no user-funds operation. Tied by executing the complete endpoint x role x state matrix on the real contracts (state restored between cells) and comparing every verdict; failing calls must not change state.",
+    "24 C19", "Coq finite decision table proved exhaustively + for-all-input guard/state-machine theorems + full matrix correspondence")
 NOT_YET = {}
 
 def main():
